@@ -5,17 +5,21 @@ use crate::json::Json;
 
 pub mod c01;
 pub mod c02;
+pub mod c03;
 pub mod c11;
 pub mod c12;
 pub mod c13;
+pub mod c14;
 
 pub fn run(ctx: &mut Ctx) -> bool {
     match ctx.prop.as_str() {
         "C01" => c01::run(ctx),
         "C02" => c02::run(ctx),
+        "C03" => c03::run(ctx),
         "C11" => c11::run(ctx),
         "C12" => c12::run(ctx),
         "C13" => c13::run(ctx),
+        "C14" => c14::run(ctx),
         _ => return false,
     }
     true
@@ -100,10 +104,21 @@ pub fn exec_compare_text(ctx: &mut Ctx, what: &str, tree: &Program, text: &str, 
     };
     // reference first: programs outside the budget are discarded before rrss runs
     let model = refi::run(tree, stdin, &refi::Budget::default());
+    if ctx.verbose {
+        eprintln!("--- case source ---\n{}\n--- model: {:?} / {:?}", text, model.outcome, String::from_utf8_lossy(&model.out));
+    }
     if let RefOutcome::OverBudget(w) = &model.outcome {
         ctx.count("discarded_over_budget");
         ctx.seen("discard_reasons", w);
         return mk(Verdict::Discarded, Some(model), vec![], None);
+    }
+    if let RefOutcome::DontCare(w) = &model.outcome {
+        // The model stopped at a region the properties leave open and cannot tell whether the rest
+        // of the run stays within the resource budget: rrss is not run (C09 covers crash-freedom
+        // of such programs with its own resource handling).
+        ctx.count("dont_care_runs");
+        ctx.seen("dont_care_reasons", w);
+        return mk(Verdict::DontCare, Some(model), vec![], None);
     }
     let parsed = match crate::mon::parse_guarded(text, 1000, true) {
         Err(p) => {
@@ -153,11 +168,6 @@ pub fn exec_compare_text(ctx: &mut Ctx, what: &str, tree: &Program, text: &str, 
         }
         ExecOutcome::Done(run) => {
             ctx.max("max_statements_executed", run.stmts);
-            if let RefOutcome::DontCare(w) = &model.outcome {
-                ctx.count("dont_care_runs");
-                ctx.seen("dont_care_reasons", w);
-                return mk(Verdict::DontCare, Some(model), run.stdout, run.result.err());
-            }
             let want_err = matches!(model.outcome, RefOutcome::Error(_));
             let got_err = run.result.is_err();
             if let Some(k) = &run.err_kind {
